@@ -78,7 +78,7 @@ type scomp struct {
 func (g *sgen) guard() (decl, test string) {
 	g.loop++
 	n := fmt.Sprintf("N[%d]", g.loop)
-	return "", g.p(n+"++ < 2")
+	return "", g.p(n + "++ < 2")
 }
 
 var sComps = []scomp{
@@ -146,12 +146,12 @@ var sComps = []scomp{
 // stmtProgram renders: comp(outer) with slot `slot` holding comp(inner) (or leaf), other slots leaves.
 // Indices: outer composite oc, cond co, for each of up to 2 slots either a leaf index or (inner comp, its leaves).
 type sspec struct {
-	oc, co   int
-	leaf     [2]int
-	innerAt  int // -1 none
-	ic, ico  int
-	ileaf    [2]int
-	tail     int
+	oc, co  int
+	leaf    [2]int
+	innerAt int // -1 none
+	ic, ico int
+	ileaf   [2]int
+	tail    int
 }
 
 func renderSpec(sp sspec) string {
